@@ -9,6 +9,7 @@ import (
 	"os"
 	"sync"
 	"sync/atomic"
+	"syscall"
 	"time"
 
 	"github.com/Jigsaw-Code/outline-sdk/transport"
@@ -666,6 +667,79 @@ func c12Forced(c *vk.Ctx) bool {
 			c.Eval("forced|stream|accept-before-select|last-close")
 		}
 
+		// --- two handles: an accept on h1 is parked after fetching the channel, a connection arrives,
+		// h1 closes: the connection reaches h1's pending accept or h2 - it is never dropped ---
+		{
+			m = service.NewListenerManager()
+			addr = fmt.Sprintf("127.0.0.1:%d", freePort())
+			ha, err := m.ListenStream(addr)
+			if err == nil {
+				hb, _ := m.ListenStream(addr)
+				held, release := holdPoint("stream.accept.beforeSelect")
+				type ares struct {
+					conn transport.StreamConn
+					err  error
+				}
+				ra := make(chan ares, 1)
+				go func() {
+					cn, err := ha.AcceptStream()
+					ra <- ares{cn, err}
+				}()
+				select {
+				case <-held:
+					cn, derr := net.DialTimeout("tcp", addr, c12B)
+					time.Sleep(2 * time.Millisecond) // the fan-out goroutine is offering the connection now
+					ha.Close()
+					release()
+					service.VerifSetPointHook(nil)
+					var got transport.StreamConn
+					select {
+					case ar := <-ra:
+						if ar.err == nil && ar.conn != nil {
+							got = ar.conn
+						} else if ar.err != nil && !errors.Is(ar.err, net.ErrClosed) {
+							c.Violation("C12/pending-call-wrong-error-on-close", map[string]any{"err": ar.err.Error()})
+							return false
+						} else if ar.err == nil {
+							c.Violation("C12/forced/accept-racing-last-close-returned-no-error", map[string]any{"handles": 2})
+							return false
+						}
+					case <-time.After(c12B):
+						c.Violation("C12/pending-call-not-unblocked-by-close", map[string]any{"kind": "stream", "phase": "forced two handles"})
+						return false
+					}
+					if got == nil {
+						// h1 reported ErrClosed: then the open handle h2 gets the connection
+						rb := make(chan transport.StreamConn, 1)
+						go func() { cn, _ := hb.AcceptStream(); rb <- cn }()
+						select {
+						case got = <-rb:
+						case <-time.After(c12B):
+						}
+					}
+					if got == nil && derr == nil {
+						c.Violation("C12/forced/connection-dropped-when-accepting-handle-closed", "the connection reached neither the closing handle's pending accept nor the open handle")
+						return false
+					}
+					if got != nil {
+						got.Close()
+					}
+					if cn != nil {
+						cn.Close()
+					}
+					c.Count("forced_two_handles_accept_vs_close", 1)
+					c.Eval("forced|stream|accept-before-select|other-handle-open")
+				case <-time.After(c12B):
+					release()
+				}
+				service.VerifSetPointHook(nil)
+				hb.Close()
+				if !c12Released(c, "stream", addr) {
+					return false
+				}
+			}
+		}
+
 		// --- re-acquisition while the closer of the last handle has released the socket but not yet
 		// told the manager: the new handle works on a new socket, undisturbed by the old one ---
 		for _, kind := range []string{"stream", "packet"} {
@@ -851,6 +925,119 @@ func c12Forced(c *vk.Ctx) bool {
 	return true
 }
 
+// c12FDExhaustion: accept fails for a while because the process is out of file descriptors
+// (a transient error, not "closed"); once descriptors are available again the shared listener
+// keeps delivering connections to its open handles.
+func c12FDExhaustion(c *vk.Ctx) bool {
+	m := service.NewListenerManager()
+	addr := fmt.Sprintf("127.0.0.1:%d", freePort())
+	h, err := m.ListenStream(addr)
+	if err != nil {
+		return true
+	}
+	defer h.Close()
+	type ares struct {
+		id  uint64
+		err error
+	}
+	results := make(chan ares, 64)
+	go func() {
+		for {
+			cn, err := h.AcceptStream()
+			if err != nil {
+				if errors.Is(err, net.ErrClosed) {
+					results <- ares{0, err}
+					return
+				}
+				continue // transient: keep accepting, as StreamServe does
+			}
+			var b [8]byte
+			cn.SetReadDeadline(time.Now().Add(c12B))
+			if _, err := io.ReadFull(cn, b[:]); err == nil {
+				results <- ares{u64(b[:]), nil}
+			}
+			cn.Close()
+		}
+	}()
+	var lim syscall.Rlimit
+	if syscall.Getrlimit(syscall.RLIMIT_NOFILE, &lim) != nil {
+		return true
+	}
+	// a client connection made while descriptors are available, to be accepted during the shortage
+	pre, err := net.DialTimeout("tcp", addr, c12B)
+	if err != nil {
+		return true
+	}
+	id0 := nextID(c.Batch)
+	pre.Write(putU64(id0))
+	select {
+	case <-results:
+	case <-time.After(c12B):
+	}
+	pre.Close()
+	low := lim
+	low.Cur = uint64(len(lab.FDs(os.Getpid())) + 3)
+	if syscall.Setrlimit(syscall.RLIMIT_NOFILE, &low) != nil {
+		return true
+	}
+	var hog []*os.File
+	for {
+		f, err := os.Open("/dev/null")
+		if err != nil {
+			break
+		}
+		hog = append(hog, f)
+	}
+	// the kernel completes these handshakes; accept() in the server fails with EMFILE meanwhile
+	var pend []net.Conn
+	if len(hog) > 0 {
+		hog[len(hog)-1].Close() // one descriptor for our own client socket
+		hog = hog[:len(hog)-1]
+	}
+	if cn, err := net.DialTimeout("tcp", addr, 2*time.Second); err == nil {
+		pend = append(pend, cn)
+	}
+	time.Sleep(50 * time.Millisecond)
+	for _, f := range hog {
+		f.Close()
+	}
+	syscall.Setrlimit(syscall.RLIMIT_NOFILE, &lim)
+	for _, cn := range pend {
+		cn.Close()
+	}
+	// descriptors are back: new connections must be delivered to the open handle
+	for i := 0; i < 5; i++ {
+		cn, err := net.DialTimeout("tcp", addr, c12B)
+		if err != nil {
+			c.Violation("C12/listener-stops-accepting-after-transient-accept-error", map[string]any{"dial_error": err.Error()})
+			return false
+		}
+		id := nextID(c.Batch)
+		cn.Write(putU64(id))
+		deadline := time.After(c12B)
+		found := false
+		for !found {
+			select {
+			case ar := <-results:
+				if ar.err != nil {
+					c.Violation("C12/open-handle-reports-closed-after-transient-accept-error", map[string]any{"err": ar.err.Error()})
+					cn.Close()
+					return false
+				}
+				found = ar.id == id
+			case <-deadline:
+				c.Violation("C12/listener-stops-accepting-after-transient-accept-error", map[string]any{"connection": i})
+				cn.Close()
+				return false
+			}
+		}
+		cn.Close()
+	}
+	c.Count("fd_exhaustion_recoveries", 1)
+	c.Eval("fault|stream|accept-fails-EMFILE-then-recovers")
+	return true
+}
+
 func c12Run(c *vk.Ctx) {
 	lab.MustSetup(c.RunDir)
 	baseFD := len(lab.FDs(os.Getpid()))
@@ -862,6 +1049,9 @@ func c12Run(c *vk.Ctx) {
 		c.Eval(fmt.Sprintf("random|packet=%v|round=%d", packet, i%4))
 	}
 	if !c12Forced(c) {
+		return
+	}
+	if !c12FDExhaustion(c) {
 		return
 	}
 	// fd table back to baseline (sockets of the listeners and of the clients are gone)
@@ -894,6 +1084,8 @@ func init() {
 			c.Require("forced_failed_then_successful_acquire")
 			c.Require("forced_accept_racing_last_close")
 			c.Require("forced_reacquire_during_last_close")
+			c.Require("forced_two_handles_accept_vs_close")
+			c.Require("fd_exhaustion_recoveries")
 			c12Run(c)
 		},
 	})
